@@ -19,6 +19,22 @@ func (f *vFix) vQueuedFor(name string) *memberlistBroadcast {
 	return mb
 }
 
+// vQueuedAliveAbout returns a queued alive broadcast whose decoded subject is name (nil if none).
+func (f *vFix) vQueuedAliveAbout(name string) *memberlistBroadcast {
+	q := f.m.broadcasts
+	for _, lb := range q.tm {
+		mb, ok := lb.b.(*memberlistBroadcast)
+		if !ok || len(mb.msg) == 0 || mb.msg[0] != byte(aliveMsg) {
+			continue
+		}
+		var a alive
+		if decode(mb.msg[1:], &a) == nil && a.Node == name {
+			return mb
+		}
+	}
+	return nil
+}
+
 // C02: a running node that has not left answers every accusation with a strictly newer alive.
 func H_C02_Refute() {
 	conf := vBaseConfig()
@@ -65,8 +81,9 @@ func H_C02_Refute() {
 		vAssert(me.Incarnation > c.inc, "c02.refute.beats-accusation")
 		vAssert(me.Incarnation > selfInc, "c02.refute.moves-forward")
 		vAssert(m.incarnation.Load() == me.Incarnation, "c02.refute.counter-matches")
-		// refute() queues its alive under the node's address string, not its name
-		mb := f.vQueuedFor(me.Addr.String())
+		// (refute() happens to queue its alive under the node's address string rather than its name; the oracle
+		// only requires that some queued alive message names us, whatever key it is filed under)
+		mb := f.vQueuedAliveAbout(vSelf)
 		vAssert(mb != nil, "c02.refute.alive-queued")
 		if mb != nil {
 			vAssert(mb.msg[0] == byte(aliveMsg), "c02.refute.is-alive-msg")
